@@ -62,7 +62,107 @@ func selfCalling(t *topology.FunctionTopology, short string) bool {
 	return false
 }
 
+// oneToOne: among the pairs the report makes by shape, no old and no new function occurs twice
+// ("pairings are one-to-one"), neither in the list of topology matches nor in the entries.
+func oneToOne(res *evid.Result, out *models.DiffOutput, replay map[string]any) {
+	res.Eval(1)
+	oldN, newN := map[string]int{}, map[string]int{}
+	for _, m := range out.TopologyMatches {
+		oldN[m.OldFunction]++
+		newN[m.NewFunction]++
+	}
+	for n, c := range oldN {
+		if c > 1 {
+			res.Violate("pairing/not-one-to-one/old", fmt.Sprintf("old function %s is paired %d times in topology_matches", n, c), replay)
+		}
+	}
+	for n, c := range newN {
+		if c > 1 {
+			res.Violate("pairing/not-one-to-one/new", fmt.Sprintf("new function %s is paired %d times in topology_matches", n, c), replay)
+		}
+	}
+	eo, en := map[string]int{}, map[string]int{}
+	for _, d := range out.Functions {
+		if d.Status != models.StatusRenamed {
+			continue
+		}
+		if parts := strings.SplitN(d.Function, " → ", 2); len(parts) == 2 {
+			eo[parts[0]]++
+			en[parts[1]]++
+		}
+	}
+	for n, c := range en {
+		if c > 1 {
+			res.Violate("pairing/not-one-to-one/new", fmt.Sprintf("new function %s is the rename target of %d entries", n, c), replay)
+		}
+	}
+	for n, c := range eo {
+		if c > 1 {
+			res.Violate("pairing/not-one-to-one/old", fmt.Sprintf("old function %s is renamed in %d entries", n, c), replay)
+		}
+	}
+}
+
+// lookalike: a revision that renames one function and removes its look-alike, and changes
+// nothing else - each of the two old functions has the one new function as its only candidate,
+// and no other function of the diff has any.
+func lookalike(res *evid.Result, idx int, root string) {
+	r := evid.Rand(int64(19500 + idx))
+	body := func(name string, mod int, callee string) gen.Func {
+		return gen.Func{Name: name, Sig: gen.SigII, Tags: []string{"lookalike"}, Text: fmt.Sprintf(`func %s(a int, b int) (res int) {
+	for i := 0; i < a&15; i++ {
+		if i%%%d == 0 {
+			res += len(hs1("k")) + b
+		}
+	}
+	%s(res, b)
+	return res
+}
+`, name, mod, callee)}
+	}
+	m1 := 2 + r.Intn(3)
+	m2 := m1 + 1 + r.Intn(2)
+	gone, moved := body("audit", m1, "h1"), body("collect", m2, "h2")
+	if r.Intn(2) == 0 {
+		// the removed look-alike sorts after the renamed function
+		gone = body("zaudit", m1, "h1")
+	}
+	extra := gen.Function(r, "Stay0", gen.SigII, 3+r.Intn(4))
+	base := &gen.File{Pkg: "p", Prelude: gen.Prelude("p"), Funcs: []gen.Func{extra, gone, moved}}
+	nf := &gen.File{Pkg: "p", Prelude: gen.Prelude("p"), Funcs: []gen.Func{extra, body("gather", m2, "h2")}}
+	dir := filepath.Join(root, fmt.Sprintf("s%d", idx))
+	defer os.RemoveAll(dir)
+	oldPath, _ := pairs.WriteFP(dir, "old", "p", base.Source())
+	newPath, _ := pairs.WriteFP(dir, "new", "p", nf.Source())
+	out, err := cli.ComputeDiff(cli.RealFileSystem{}, oldPath, newPath)
+	if err != nil {
+		res.Inconcl(1)
+		res.Count("scenario_does_not_load", 1)
+		return
+	}
+	replay := map[string]any{"old": base.Source(), "new": nf.Source(), "scenario": idx, "form": "lookalike"}
+	res.Count("scenarios", 1)
+	res.Count("scenarios_with_removed_lookalike", 1)
+	oneToOne(res, out, replay)
+	res.Eval(1)
+	got := ""
+	for _, d := range out.Functions {
+		if d.Status == models.StatusRenamed && strings.HasPrefix(d.Function, "collect → ") {
+			got = strings.TrimPrefix(d.Function, "collect → ")
+		}
+	}
+	if got != "gather" {
+		res.Violate("rename/missed/lookalike", fmt.Sprintf("collect was only renamed (to gather) but the report pairs it with %q", got), replay)
+	} else {
+		res.Distinct(fmt.Sprintf("lookalike/%d-%d-%s", m1, m2, gone.Name))
+	}
+}
+
 func scenario(res *evid.Result, idx int, root string) {
+	if idx%8 == 3 {
+		lookalike(res, idx, root)
+		return
+	}
 	r := evid.Rand(int64(19000 + idx))
 	base := gen.NewFile(r, "p", 5+r.Intn(10), r.Intn(2) == 0)
 	// twins: duplicate some groups under fresh names (same shape, different name)
@@ -261,6 +361,7 @@ func (p *tyPoolZ) %s(a int, b int) (res int) {
 	oldI, newI := index(oldRs), index(newRs)
 	replay := map[string]any{"old": base.Source(), "new": nf.Source(), "plan": plan, "rename": rename, "scenario": idx}
 	res.Count("scenarios", 1)
+	oneToOne(res, out, replay)
 
 	renamedOld := map[string]string{} // old short -> reported new short
 	removed, added := map[string]bool{}, map[string]bool{}
